@@ -489,17 +489,20 @@ impl Hist {
 pub struct Runner {
     pub h: Hist,
     pub ms: crate::monitors::MonState,
+    /// every state-changing line executed so far (for replaying the same prefix on a twin)
+    pub log: Vec<String>,
 }
 
 impl Runner {
     pub fn new(cfg: WorldCfg) -> Runner {
-        Runner { h: Hist::new(cfg), ms: Default::default() }
+        Runner { h: Hist::new(cfg), ms: Default::default(), log: vec![] }
     }
     pub fn first_snap(&mut self, o: &mut Out) {
         let s = self.h.exec_line("snap");
         o.line("snap", &s);
     }
     pub fn step(&mut self, line: &str, o: &mut Out) -> String {
+        self.log.push(line.to_string());
         let before = self.h.last_obs.clone();
         self.ms.fault_active = self.h.pending_fault.is_some() && !line.starts_with("fault");
         let res = self.h.exec_line(line);
